@@ -19,6 +19,7 @@ W_1965 = ST.Window(1965, 1, 1965, 4)             # lower edge of the two-digit-y
 W_2064 = ST.Window(2064, 9, 2065, 1)             # upper edge
 W_1900 = ST.Window(1899, 11, 1900, 4)            # 1900 is not a leap year (100-rule)
 W_2000 = ST.Window(1999, 11, 2000, 4)            # 2000 is (400-rule)
+W_LONG = ST.Window(2019, 11, 2021, 6)            # room for a day-of-year that overflows its year
 
 
 def FUNCTIONS():
@@ -49,7 +50,7 @@ T = {
     "full-end": ("/d/{year}{month}{day}{hour}{minute}-{end_year}{end_month}{end_day}{end_hour}{end_minute}.nc", "minute",
                  "complete", None, None, W_DEFAULT),
     "full-end-doy": ("/d/{year}/{doy}/{hour}{minute}{second}_{millisecond}-{end_year}{end_doy}{end_hour}{end_minute}{end_second}{end_millisecond}.nc",
-                     "millisecond", "complete", None, None, W_DEFAULT),
+                     "millisecond", "complete", None, None, W_LONG),
     "end-hm": ("/d/{year}/{month}/{day}/{hour}{minute}-{end_hour}{end_minute}.nc", "minute", ("hour", "minute"), None, None, W_DEFAULT),
     "end-ms": ("/d/{year}{month}{day}{hour}/{minute}{second}-{end_minute}{end_second}.bin", "second", ("minute", "second"), None, None, W_DEFAULT),
     "end-s": ("/d/{year}{doy}{hour}{minute}{second}_{end_second}.bin", "second", ("second",), None, None, W_DEFAULT),
@@ -68,7 +69,7 @@ def _quick(tier):
     names = sorted(T)
     if tier == "quick":
         names = ["tutorial", "plain", "doy-end", "regex-user", "sequence", "year2", "year2-1965", "doy-1900", "millisecond",
-                 "full-end", "end-hm", "end-s", "wildcard", "regex-chars", "user-list"]
+                 "full-end", "full-end-doy", "end-hm", "end-s", "wildcard", "regex-chars", "user-list"]
     return names
 
 
@@ -252,7 +253,7 @@ PLAN = {
     "thorough": {"harnesses": ["C02.roundtrip", "C02.reject", "C02.info-via", "C02.errors"],
                  "opts": {"query_timeout_ms": 120000, "chunk_paths": 20}},
 }
-BOUNDS = {"quick": {"templates": "15 templates (the five of test_fileset.py; year / year2; month+day / doy; hour .. millisecond; complete end; "
+BOUNDS = {"quick": {"templates": "16 templates (the five of test_fileset.py; year / year2; month+day / doy; hour .. millisecond; complete end; "
                     "partial end with hour+minute(+second), second; repeated placeholders; wildcard; literal dots and regex characters; user "
                     "placeholders with default regex, custom regex and value list; placeholders in directory and file part)",
                     "dates": "every valid date-time at the template's resolution inside a calendar window: 2019-11 .. 2020-04 (year change, leap "
